@@ -132,7 +132,7 @@ type round struct {
 
 func main() {
 	r := ev.Start("C43", "exploration")
-	r.SetRule("one case = one SyncConfigTunnels of a real client: 0..8 tunnels accepted by the config validator (http/https/tcp/unix targets, header options), hostnames empty / dot-free registered / dot-free unregistered / dotted, no duplicates; 0..7 registered hostnames on the scripted server (dot-free and dotted, used and unused by the configuration); fresh GenerateHostname results that become registered. Up to 3 rounds per client: later rounds edit the list through RebuildTunnels (remove, add, blank a hostname) and may register more names. Non-trivial: at least one tunnel needed a hostname. Distinct by (round, tunnels needing a name, relation needed vs reusable, unused dotted registered present, registered name in use present, configured hostnames present)")
+	r.SetRule("one case = one SyncConfigTunnels of a real client: 0..8 tunnels accepted by the config validator (http/https/tcp/unix targets, header options), hostnames empty / dot-free registered / dot-free unregistered / dotted, no duplicates; 0..7 registered hostnames on the scripted server (dot-free and dotted, used and unused by the configuration); fresh GenerateHostname results that become registered. Up to 3 rounds per client: later rounds edit the list through RebuildTunnels (remove, add, blank a hostname) and may register more names; in a third of the synchronisations GenerateHostname is scripted to fail (always, from the k-th call, only the k-th call). Non-trivial: at least one tunnel needed a hostname. Distinct by (round, tunnels needing a name, relation needed vs reusable, unused dotted registered present, registered name in use present, configured hostnames present, hostname request failed before or after an assignment)")
 	r.Assume("the scripted server is well-behaved: RPCs succeed, registered hostnames are distinct, generated hostnames are fresh; configurations with duplicate hostnames are outside the property")
 	dir, err := os.MkdirTemp(child.WorkDir(), "c43-")
 	if err != nil {
